@@ -36,7 +36,12 @@ func ZipTypeNew(metatype *Type, args Tuple, kwargs StringDict) (Object, error) {
 		item := args[i]
 		iter, err := Iter(item)
 		if err != nil {
-			return nil, ExceptionNewf(TypeError, "zip argument #%d must support iteration", i+1)
+			// only "not iterable" is reworded: an exception raised by
+			// the argument's __iter__ is passed on as it is
+			if IsException(TypeError, err) {
+				return nil, ExceptionNewf(TypeError, "zip argument #%d must support iteration", i+1)
+			}
+			return nil, err
 		}
 		itTuple[i] = iter
 	}
@@ -50,6 +55,10 @@ func (z *Zip) M__iter__() (Object, error) {
 }
 
 func (z *Zip) M__next__() (Object, error) {
+	if z.size == 0 {
+		// zip of no iterables is empty (not an endless stream of empty tuples)
+		return nil, StopIteration
+	}
 	result := make(Tuple, z.size)
 	for i := 0; i < z.size; i++ {
 		value, err := Next(z.itTuple[i])
